@@ -411,6 +411,7 @@ CHECKS["C20"] = dict(
          "the empty container and from a populated start state (one that has already grown its table / split slots / filled the ring), each replayed on a fresh container; one engine 'execution' is one "
          "(variant, start state, first operation) subtree; aux counters give the number of sequences and operations",
     aux_names=["unused", "sequences_replayed", "operations_checked", "aux3"],
+    execs_aux=1,
     explanation="all set/map variants of C13-C16 (lists, hash sets, skip lists, trees, cuckoo/striped sets; HP, DHP, RCU, nogc; container and intrusive classes) against std::map, the queues of C06/C07 against (bounded) "
                 "std::deque, stacks and FCDeque against std::vector/std::deque, priority queues against std::priority_queue: after every call the return value (incl. the update() pair), the value seen by find/erase/"
                 "extract functors, the number of insert/update functor calls and the update functor's new-item flag are compared with the model; after every call on a set the membership and value of every key of the "
